@@ -177,10 +177,10 @@ pub fn run(ctx: &Ctx) {
     {
         let (refs, defs) = vocabulary();
         let n = refs.len();
-        let sp = Space::new(&[n, n, 2, 2]);
+        let sp = Space::new(&[n, n, 2, 2, 4]);
         let s2 = sp.clone();
-        let (refs, defs, dl) = (&refs, &defs, &dl);
-        ctx.run_family(Family::new("c11.vocabulary_pairs", sp.size(), format!("one PDU with two signal instances: all ordered pairs over the {}-entry reference vocabulary (16 standard names incl. unsupported S_FLOA16 and the S_RAW alias; custom signals through codings with each of the 16 base types; unknown base type; dangling coding ref; unknown signal) x sequence numbers (0,1)/(1,0) x definitions before/after the PDU", n), move |i, loc| {
+        let (refs, defs) = (&refs, &defs);
+        ctx.run_family(Family::new("c11.vocabulary_pairs", sp.size(), format!("one PDU with two signal instances: all ordered pairs over the {}-entry reference vocabulary (16 standard names incl. unsupported S_FLOA16 and the S_RAW alias; custom signals through codings with each of the 16 base types; unknown base type; dangling coding ref; unknown signal) x sequence numbers (0,1)/(1,0) x definitions before/after the PDU x codings {{in a CODINGS section of ELEMENTS, in PROCESSING-INFORMATION after ELEMENTS, before ELEMENTS, after ELEMENTS and a further section}}", n), move |i, loc| {
             let c = s2.coords(i);
             let (a, b) = if c[2] == 0 { (0, 1) } else { (1, 0) };
             let p = pdu("P1", Desc::Text("d".into()), &[(&refs[c[0]], a), (&refs[c[1]], b)]);
@@ -194,7 +194,7 @@ pub fn run(ctx: &Ctx) {
             if c[3] == 1 {
                 elems.extend(defs.iter().cloned());
             }
-            judge(&[elems], &[dl.clone()], &format!("PDU with signal refs {} (seq {}) and {} (seq {})", refs[c[0]], a, refs[c[1]], b), loc);
+            judge(&[elems], &[Layout { codings_place: c[4], ..Layout::default() }], &format!("PDU with signal refs {} (seq {}) and {} (seq {}), codings placement {}", refs[c[0]], a, refs[c[1]], b, c[4]), loc);
         }));
     }
     // G2: PDU layout: 0..3 signal instances x all permutations x DESC variants x all 120 child orders x instance-internal order x ref style
